@@ -1635,6 +1635,9 @@ func ruleDOC1(c *Ctx) []Ob {
 		key string
 	}
 	paths := []string{"a", "a.b", "a.b.c", "a.", ".a", "a..b", ""}
+	if c.Tier == "thorough" {
+		paths = append(paths, "a.b.c.d", "..", "a.b.", ".", "ab.cd.ef", "a. .b")
+	}
 	for _, path := range paths {
 		segs := strings.Split(path, ".")
 		for _, force := range []bool{false, true} {
